@@ -65,6 +65,8 @@ public:
 	uint64_t calls = 0;
 	bool have_in = false;
 	guard::Place in_place = guard::END; // START: the chunk begins right after an inaccessible page (catches reads before next_in)
+	bool eos_announced = false;
+	size_t offer_limit = 0; // != 0: the next call is offered only this many of the not yet consumed bytes (the caller re-cuts its input); one-shot
 
 	explicit Deflater(const DefOpts &opt) : o(opt) {
 		sbuf = guard::alloc(sizeof(struct isal_zstream), guard::END, "isal_zstream", 64, 0);
@@ -95,12 +97,17 @@ public:
 		pending.insert(pending.end(), add, add + add_len);
 		total_fed += add_len;
 		if (have_in) guard::retire(inb); // the previous mapping is gone: consumed input must never be touched again
-		inb = guard::alloc_copy(pending.data(), pending.size(), in_place, "input chunk");
+		size_t offered = pending.size();
+		// (not once end_of_stream has been announced: the input is then complete by the caller's own word)
+		if (offer_limit && offer_limit < offered && !eos_announced) { offered = offer_limit; eos = false; } // more input follows: the end cannot be announced yet
+		offer_limit = 0;
+		if (eos) eos_announced = true;
+		inb = guard::alloc_copy(pending.data(), offered, in_place, "input chunk");
 		guard::set_readonly(inb);
 		have_in = true;
 		outb = guard::alloc(out_cap, guard::END, "output chunk");
 		s->next_in = inb.p;
-		s->avail_in = (uint32_t) pending.size();
+		s->avail_in = (uint32_t) offered;
 		s->next_out = outb.p;
 		s->avail_out = (uint32_t) out_cap;
 		s->flush = (uint16_t) flush;
